@@ -6,9 +6,10 @@
 import DateutilVerif.Ops.Base
 import DateutilVerif.Ops.CacheOps
 import DateutilVerif.Ops.QueryOps
+import DateutilVerif.Ops.RSetOps
 
 def handlers : List (String → List String → Option String) :=
-  [Ops.Base.handle, Ops.CacheOps.handle, Ops.QueryOps.handle]
+  [Ops.Base.handle, Ops.CacheOps.handle, Ops.QueryOps.handle, Ops.RSetOps.handle]
 
 def dispatch (line : String) : String :=
   match (line.trimAscii.toString.splitOn " ").filter (· ≠ "") with
